@@ -174,6 +174,12 @@ struct ConnCtl { decisions_made: usize, calls: usize }
 
 pub const BIG: usize = 5000;
 
+/// The DISCONNECT of stop(): minimal in workload 0; in workload 1 it carries a 5000-byte reason string, larger than the
+/// drivers' output buffer, so that it can be half-encoded when the connection ends.
+pub fn stop_disconnect(workload: u8) -> DisconnectPacket {
+    if workload == 1 { DisconnectPacket::builder().with_reason_string("r".repeat(BIG)).build() } else { DisconnectPacket::builder().build() }
+}
+
 pub fn pattern(n: usize, seed: u8) -> Vec<u8> { (0..n).map(|i| ((i * 7 + i / 256) as u8) ^ seed).collect() }
 
 fn wait_until<F: FnMut() -> bool>(mut f: F, timeout: Duration) -> bool {
@@ -304,7 +310,7 @@ pub fn execute(plan: &Plan) -> Outcome {
                             Control::CloseThenSubmit => { let _ = client.close(); close_issued = true; submit_extra(&client, &mut receivers_pub, "after-close"); }
                             Control::SubmitThenClose => { submit_extra(&client, &mut receivers_pub, "before-close"); let _ = client.close(); close_issued = true; }
                             Control::Stop => { let _ = client.stop(None); stop_issued = true; }
-                            Control::StopDisconnect => { let _ = client.stop(Some(StopOptions::builder().with_disconnect_packet(DisconnectPacket::builder().build()).build())); stop_issued = true; }
+                            Control::StopDisconnect => { let _ = client.stop(Some(StopOptions::builder().with_disconnect_packet(stop_disconnect(plan.workload)).build())); stop_issued = true; }
                             Control::StopThenStart => { let _ = client.stop(None); let _ = client.start(None); }
                         }
                     }
@@ -367,7 +373,7 @@ pub fn execute(plan: &Plan) -> Outcome {
                                 Control::CloseThenSubmit => { let _ = client.close(); close_issued = true; submit_extra(&client, &mut receivers_pub, "after-close"); }
                                 Control::SubmitThenClose => { submit_extra(&client, &mut receivers_pub, "before-close"); let _ = client.close(); close_issued = true; }
                                 Control::Stop => { let _ = client.stop(None); stop_issued = true; }
-                                Control::StopDisconnect => { let _ = client.stop(Some(StopOptions::builder().with_disconnect_packet(DisconnectPacket::builder().build()).build())); stop_issued = true; }
+                                Control::StopDisconnect => { let _ = client.stop(Some(StopOptions::builder().with_disconnect_packet(stop_disconnect(plan.workload)).build())); stop_issued = true; }
                                 Control::StopThenStart => { let _ = client.stop(None); let _ = client.start(None); }
                             }
                         }
